@@ -30,7 +30,20 @@ const VOCAB: [&str; 60] = [
 pub enum Insertion {
     /// foreign element inserted at insertion point number `at` (mod count); `own_ns`: unprefixed, with its
     /// foreign namespace declared as default namespace on the element itself
-    Elem { at: u16, local: String, ty: Option<String>, text: String, child: Option<String>, attrs: Vec<(String, String)>, #[serde(default)] own_ns: bool },
+    Elem {
+        at: u16,
+        local: String,
+        ty: Option<String>,
+        text: String,
+        child: Option<String>,
+        attrs: Vec<(String, String)>,
+        #[serde(default)]
+        own_ns: bool,
+        /// the child element is written without a prefix: it belongs to the standard's namespace although it sits
+        /// inside the foreign element (as the bundled LAS-derived file does with its variable length records)
+        #[serde(default)]
+        child_standard_ns: bool,
+    },
     /// foreign attribute added to the start tag number `at` (mod count)
     Attr { at: u16, local: String, value: String },
     /// foreign element nested inside leaf element number `at`, after its character data
@@ -162,7 +175,7 @@ fn apply(xml: &str, ins: &[Insertion]) -> String {
     let mut edits: Vec<(usize, String)> = Vec::new();
     for i in ins {
         match i {
-            Insertion::Elem { at, local, ty, text, child, attrs, own_ns } => {
+            Insertion::Elem { at, local, ty, text, child, attrs, own_ns, child_standard_ns } => {
                 if sc.points.is_empty() {
                     continue;
                 }
@@ -193,7 +206,10 @@ fn apply(xml: &str, ins: &[Insertion]) -> String {
                     e.push_str(&format!(" {k}=\"{}\"", esc(v)));
                 }
                 e.push('>');
-                if let Some(c) = child {
+                if let (Some(c), true) = (child, *child_standard_ns) {
+                    // an empty container of the standard's namespace nested in the foreign element
+                    e.push_str(&format!("<{c} type=\"Vector\" allowHeterogeneousChildren=\"1\"></{c}>"));
+                } else if let Some(c) = child {
                     e.push_str(&format!("<{PREFIX}:{c} type=\"String\">{}</{PREFIX}:{c}>", esc(text)));
                 } else {
                     e.push_str(&esc(text));
@@ -319,7 +335,7 @@ fn insertion(s: &mut Src) -> Insertion {
             _ => String::new(),
         };
         let child = if ty == Some("Structure") || s.chance(1, 5) { Some(local_name(s)) } else { None };
-        Insertion::Elem { at: s.u16(), local: local_name(s), ty: ty.map(|t| t.to_string()), text, child, attrs, own_ns: s.chance(1, 5) }
+        Insertion::Elem { at: s.u16(), local: local_name(s), ty: ty.map(|t| t.to_string()), text, child, attrs, own_ns: s.chance(1, 5), child_standard_ns: s.chance(1, 4) }
     } else {
         Insertion::Attr { at: s.u16(), local: s.pick(&["type", "fileOffset", "recordCount", "length", "minimum", "maximum", "scale", "precision", "note"]).to_string(), value: s.pick(&["Blob", "String", "7", "0", "single", "x"]).to_string() }
     }
@@ -371,7 +387,10 @@ impl Check for C18 {
             Case::Insert { program, insertions } => {
                 for i in insertions {
                     match i {
-                        Insertion::Elem { local, own_ns, .. } => {
+                        Insertion::Elem { local, own_ns, child, child_standard_ns, .. } => {
+                            if *child_standard_ns && child.is_some() {
+                                v.nt("standard_namespace_element_nested_in_a_foreign_element");
+                            }
                             if VOCAB.contains(&local.as_str()) {
                                 v.nt("foreign_element_with_standard_local_name");
                             }
@@ -436,7 +455,8 @@ impl Check for C18 {
                     let neutral: Vec<Insertion> = insertions
                         .iter()
                         .map(|i| match i {
-                            Insertion::Elem { at, local, ty, text, child, attrs, own_ns } => Insertion::Elem {
+                            Insertion::Elem { at, local, ty, text, child, attrs, own_ns, child_standard_ns } => Insertion::Elem {
+                                child_standard_ns: *child_standard_ns,
                                 at: *at,
                                 local: format!("q_{local}"),
                                 ty: ty.clone(),
